@@ -213,7 +213,12 @@ func (a *sparseArrayObject) setOwnStr(name unistring.String, val Value, throw bo
 				a.val.runtime.typeErrorResult(throw, "length is not writable")
 				return false
 			}
-			return a.setLength(a.val.runtime.toLengthUint32(val), throw)
+			l := a.val.runtime.toLengthUint32(val)
+			if self := a.val.self; self != objectImpl(a) {
+				// the coercion ran user code that switched the storage strategy: a is stale
+				return self.setOwnStr(name, intToValue(int64(l)), throw)
+			}
+			return a.setLengthInt(l, throw)
 		} else {
 			return a.baseObject.setOwnStr(name, val, throw)
 		}
@@ -395,6 +400,13 @@ func (a *sparseArrayObject) defineOwnPropertyStr(name unistring.String, descr Pr
 		return a._defineIdxProperty(idx, descr, throw)
 	}
 	if name == "length" {
+		if descr.Value != nil {
+			descr.Value = intToValue(int64(a.val.runtime.toLengthUint32(descr.Value)))
+			if self := a.val.self; self != objectImpl(a) {
+				// the coercion ran user code that switched the storage strategy: a is stale
+				return self.defineOwnPropertyStr(name, descr, throw)
+			}
+		}
 		return a.val.runtime.defineArrayLength(a.getLengthProp(), descr, a.setLength, throw)
 	}
 	return a.baseObject.defineOwnPropertyStr(name, descr, throw)
